@@ -1,0 +1,69 @@
+/* This Source Code Form is subject to the terms of the Mozilla Public
+ * License, v. 2.0. If a copy of the MPL was not distributed with this
+ * file, You can obtain one at https://mozilla.org/MPL/2.0/. */
+//! Read-only state snapshot for external verification tooling.
+//!
+//! Only compiled with the `verif-hooks` feature; never changes behaviour.
+use alloc::vec::Vec;
+
+use crate::{BroadcastHandler, Foca, Identity, Member};
+
+/// A copy of the internal state that isn't reachable via the public API.
+#[derive(Debug, Clone)]
+pub struct VerifSnapshot<T> {
+    /// Current incarnation
+    pub incarnation: u16,
+    /// Current timer token
+    pub timer_token: u8,
+    /// 0 = disconnected, 1 = connected, 2 = undead
+    pub connection_state: u8,
+    /// Round-robin cursor of the member list
+    pub cursor: usize,
+    /// Member being probed, if any
+    pub probe_direct: Option<Member<T>>,
+    /// Members asked to probe indirectly
+    pub probe_indirect: Vec<T>,
+    /// Current probe number
+    pub probe_number: u8,
+    /// Direct ack received
+    pub direct_ack_ok: bool,
+    /// Number of indirect acks received
+    pub indirect_ack_count: usize,
+    /// Whether the indirect probe stage was reached
+    pub reached_indirect_probe_stage: bool,
+    /// Cluster updates backlog: (remaining transmissions, data)
+    pub updates: Vec<(usize, Vec<u8>)>,
+    /// Custom broadcasts backlog: (remaining transmissions, data)
+    pub custom_broadcasts: Vec<(usize, Vec<u8>)>,
+    /// Capacity of the reusable send buffer
+    pub send_buf_capacity: usize,
+}
+
+impl<T, C, RNG, B> Foca<T, C, RNG, B>
+where
+    T: Identity,
+    B: BroadcastHandler<T>,
+{
+    /// Takes a snapshot of the internal state.
+    pub fn verif_snapshot(&self) -> VerifSnapshot<T> {
+        VerifSnapshot {
+            incarnation: self.incarnation,
+            timer_token: self.timer_token,
+            connection_state: match self.connection_state {
+                crate::ConnectionState::Disconnected => 0,
+                crate::ConnectionState::Connected => 1,
+                crate::ConnectionState::Undead => 2,
+            },
+            cursor: self.members.verif_cursor(),
+            probe_direct: self.probe.verif_direct(),
+            probe_indirect: self.probe.verif_indirect(),
+            probe_number: self.probe.probe_number(),
+            direct_ack_ok: self.probe.verif_flags().0,
+            indirect_ack_count: self.probe.verif_flags().1,
+            reached_indirect_probe_stage: self.probe.verif_flags().2,
+            updates: self.updates.verif_entries(),
+            custom_broadcasts: self.custom_broadcasts.verif_entries(),
+            send_buf_capacity: self.send_buf.capacity(),
+        }
+    }
+}
